@@ -11,7 +11,7 @@ ROOT = os.path.dirname(os.path.dirname(os.path.abspath(__file__)))
 sys.path.insert(0, os.path.join(ROOT, 'tools'))
 import assemble as asm
 
-BUILD = os.path.join(ROOT, 'build')
+BUILD = os.environ.get('VERIF_BUILD') or os.path.join(ROOT, 'build')
 UNITS_OUT = os.path.join(BUILD, 'units')
 CACHE = os.path.join(BUILD, 'cache')
 EVID = os.path.join(ROOT, 'evidence')
@@ -23,7 +23,7 @@ SEMANTIC = (
     'postcondition not satisfied', 'precondition not satisfied', 'possible arithmetic underflow/overflow',
     'possible division by zero', 'invariant not satisfied', 'assertion failed', 'decreases not satisfied',
     'possible bit shift underflow/overflow', 'loop invariant', 'recommendation not met',
-    'could not prove termination', 'unreachable', 'safe_api', 'may be out of range', 'cannot show',
+    'could not prove termination', 'unreachable', 'unable to prove', 'safe_api', 'may be out of range', 'cannot show',
 )
 RESOURCE = ('rlimit', 'resource limit', 'timed out', 'timeout', 'out of memory')
 # ownership errors on the map field are C16 obligations (DESIGN §6 C16)
@@ -275,8 +275,14 @@ def main():
                 n_obl += 1
                 failed_all.append(dict(fl[0], unit=unit, full=unit + '/' + oid))
         ft = r['fn_times']
+        assumed = {a['fn']: a['checked_by'] for a in meta.get('assumed_fns', [])}
+        for a in meta.get('assumed_fns', []):
+            trusted.add('ASSUMED contract (body not verified by Verus): %s [%s]' % (a['fn'], a['checked_by']))
         for f in meta['functions']:
             short = f['fn'].split('::')[-1]
+            if f['fn'] in assumed:
+                functions_ev.append({'fn': f['fn'], 'lines': f['lines'], 'sha256': f['sha256'], 'rules': f['rules'], 'verifier': 'none: contract ASSUMED in Verus (%s)' % assumed[f['fn']], 'unit': unit})
+                continue
             tm = None
             for k, v in ft.items():
                 if k.endswith('::' + short): tm = v
